@@ -159,6 +159,8 @@ def dec_render(e):
 
 
 def render_stmt(st):
+    if st['k'] == 'raw':
+        return st['text']
     if st['k'] == 'define':
         return '#define ' + st['name'] + ('' if 'v' not in st else ' ' + str(st['v']))
     if st['k'] == 'cond':
@@ -188,6 +190,8 @@ def render_file(stmts):
 
 def model_stmt(st):
     st = dict(st)
+    if st['k'] == 'raw':
+        return {'k': 'comment'}     # only ever generated inside an unselected branch
     if st['k'] == 'cond' and 'c' in st:
         c = st['c']
         st['c'] = {'lhs': c['lhs'], 'op': c['op'], 'rhs': c['rhs']}
@@ -279,7 +283,31 @@ def gen_case(rng, tier):
              'include': [{'k': 'data', 'w': 1, 'vals': [('num', 10)]}],
              'memzone': [{'k': 'data', 'w': 1, 'vals': [('num', 11)]}, {'k': 'label', 'name': 'tail_l'}, {'k': 'data', 'w': 2, 'vals': [('label', 'tail_l')]}],
              'orgzone': [{'k': 'data', 'w': 1, 'vals': [('num', 12)]}, {'k': 'label', 'name': 'tail_l'}, {'k': 'data', 'w': 2, 'vals': [('label', 'tail_l')]}]}[eff]
-    stmts = [{'k': 'data', 'w': 1, 'vals': [('num', 1)]}, cond] + inner + [{'k': 'data', 'w': 1, 'vals': [('num', 2)]},
+    if rng.random() < 0.35:
+        # lines that are only meaningful (or only erroneous) inside the branch: an unselected branch must be inert
+        eff = rng.choice(['constchain', 'unknown-mnemonic', 'garbage', 'unfit-operand', 'zonechain', 'require', 'undefined-label',
+                          'duplicate-label', 'bad-directive'])
+        raw = lambda t: [{'k': 'raw', 'text': t}]  # noqa
+        inner = {'constchain': [{'k': 'const', 'name': 'kk_a', 'e': ('num', 5)},
+                                {'k': 'const', 'name': 'kk_b', 'e': ('bin', '+', ('label', 'kk_a'), ('num', 1))},
+                                {'k': 'data', 'w': 1, 'vals': [('label', 'kk_b')]}],
+                 'unknown-mnemonic': raw('bogus ra, 5'), 'garbage': raw('!! ?? !!'),
+                 'unfit-operand': [{'k': 'instr', 'mn': 'op1', 'args': [[('num', 70000), 1]]}],
+                 'zonechain': [{'k': 'createZone', 'name': 'ZX', 's': 64, 'e': 95}, {'k': 'memzone', 'z': 'ZX'},
+                               {'k': 'data', 'w': 1, 'vals': [('num', 4)]}, {'k': 'memzone', 'z': 'GLOBAL'}],
+                 'require': raw('#require "otherlang >= 9.9.9"'),
+                 'undefined-label': [{'k': 'data', 'w': 2, 'vals': [('label', 'nowhere_defined')]}],
+                 'duplicate-label': [{'k': 'label', 'name': 'first_l'}],
+                 'bad-directive': raw('.org 99999999')}[eff]
+        after = [{'k': 'data', 'w': 1, 'vals': [('num', 13)]}]
+        if eff in ('unknown-mnemonic', 'garbage', 'require', 'bad-directive'):
+            sel = False      # the model has no representation of these lines other than "not selected"
+            cond['c']['lhs'] = ('num', 0)
+        if eff == 'duplicate-label':
+            inner = inner + []
+            after = [{'k': 'data', 'w': 2, 'vals': [('label', 'first_l')]}]
+    first = [{'k': 'label', 'name': 'first_l'}] if eff == 'duplicate-label' else []
+    stmts = first + [{'k': 'data', 'w': 1, 'vals': [('num', 1)]}, cond] + inner + [{'k': 'data', 'w': 1, 'vals': [('num', 2)]},
                                                                          {'k': 'cond', 'd': 'endif'}] + after
     files = [stmts]
     if eff == 'include':
